@@ -110,6 +110,13 @@ def finding(rule, prop, row, construct, detail, line=None):
 # --------------------------------------------------------------------------------------------
 EVAL_TAIL = ["nmtools::forward<context_t>($context)", "nmtools::forward<output_t>($output)", "$resolver"]
 
+def _fwd_norm(x):
+    """nmtools::forward<T>($p), std::forward<T>($p), static_cast<T&&>($p) (cast stripped by the canonicaliser) and a plain $p all hand
+    the same object on: normalise to $p"""
+    m = re.fullmatch(r"(?:nmtools|std)::forward<[^()]*>\((\$\w+)\)", x.strip())
+    return m.group(1) if m else x.strip()
+
+
 def load_table(name):
     return json.load(open(os.path.join(VERIF, "tools", name)))
 
@@ -166,8 +173,11 @@ def rule_fwd_array(rows, prop):
             a = pc[1]
             m = re.fullmatch(r"(?:nmtools::)?get<0>\((%\w+)\)", a[0]) if a else None
             first = m.group(1) if m else (a[0] if a else "")
-            if len(a) != 4 or a[1:] != EVAL_TAIL:
+            if len(a) != 4 or [_fwd_norm(x) for x in a[1:]] != [_fwd_norm(x) for x in EVAL_TAIL]:
                 ok_ret = False; why = "eval() does not receive (view, forward(context), forward(output), resolver) in this order: " + e; break
+            if first.startswith("view::") and parse_call(first):
+                # the view call written inline in the return statement: treat it as an anonymous local
+                locs["<inline>"] = first; first = "%<inline>"
             if not first.startswith("%") or first[1:] not in locs or (view_local and view_local != first[1:]):
                 ok_ret = False; why = "eval() is not applied to the local view: " + a[0]; break
             view_local = first[1:]
